@@ -102,7 +102,16 @@ def rule_z2_z3(chk: Check, ix: Index):
         kw = _kw(n)
         mode = norm_stmt(n.args[1]) if len(n.args) > 1 else kw.get("mode", "'r'")
         chk.count("Z2-explicit-encoding")
-        ok = "b" in mode or kw.get("encoding", "").strip("'\"").lower().replace("_", "-") in ("utf-8", "utf8", "utf-8-sig")
+        enc = kw.get("encoding", "").strip("'\"").lower().replace("_", "-")
+        ok = "b" not in mode and enc in ("utf-8", "utf8")
+        why = ("a source file is read in binary mode: its lines then end at '\\n' only, while the tokenizer's text handle (and a string) "
+               "also end a line at a lone '\\r' — line numbers of a CR-only or mixed file no longer correspond" if "b" in mode else
+               f"a source file is decoded as {enc!r}: a leading byte order mark is silently dropped, so the file parses although the same "
+               f"text passed as a string does not (and the second reading of the file for error text decodes differently)"
+               if enc in ("utf-8-sig",) else "")
+        if why:
+            chk.fail("Z2-explicit-encoding", f"{q}:{norm_stmt(n)}", f"{f.rel}:{n.lineno}", why)
+            continue
         chk.require(ok, "Z2-explicit-encoding", f"{q}:{norm_stmt(n)}", f"{f.rel}:{n.lineno}",
                     "a source file is opened with the locale's preferred encoding: under LC_ALL=C (or a Latin-1 locale) a UTF-8 "
                     "file with a non-ASCII character raises UnicodeDecodeError or is mis-decoded, while the same text passed "
@@ -116,7 +125,7 @@ def rule_z2_z3(chk: Check, ix: Index):
         return
     s_nl = _kw(sio[0]).get("newline", "'\\n'")  # StringIO default: no translation
     for q, f, n in opens:
-        if q != "Parser.parse_file":
+        if q not in ("Parser.parse_file", "Tokenizer.get_lines") and not q.startswith("Tokenizer."):
             continue
         o_nl = _kw(n).get("newline", "None")  # open default: universal newlines with translation
         same = (o_nl, s_nl) in (("None", "None"), ("''", "''"), ("'\\n'", "'\\n'"))
@@ -192,8 +201,9 @@ def run(chk: Check):
     rule_y3b(chk, ix)
     from .c13 import rule_u2, rule_u3
     rule_l2(chk, ix)
-    from .c08 import rule_l5
+    from .c08 import rule_l5, rule_l1
     rule_l5(chk, ix)
+    rule_l1(chk, ix)  # a token's `line` is the text of its row: the string-mode error text is read from it
     rule_u2(chk)
     rule_u3(chk, ix)
     chk.floor("Z1-pipeline-agreement", 6)
